@@ -219,6 +219,16 @@ func init() {
 		sch.policy = int(asInt64(args[0]))
 		return nil
 	}
+	// vScheduleExplore(k, preempt): every choice among runnable goroutines becomes a path decision;
+	// explored are all schedules that differ from lowest-numbered-first at no more than k scheduling
+	// points (blocking operations; with preempt also before every channel / lock operation)
+	intrinsics["vScheduleExplore"] = func(fr *frame, args []value) value {
+		threadsStart()
+		sch.policy = 3
+		sch.explore = int(asInt64(args[0]))
+		sch.preempt = args[1].(bool)
+		return nil
+	}
 	intrinsics["vYield"] = func(fr *frame, args []value) value {
 		if sch != nil {
 			sch.yield()
